@@ -98,11 +98,12 @@ def drive(name, what, unwind=8, **kw):
              unwind=unwind, object_bits=11, kind='bounded', timeout=200, bounded=what, under_contract=[])
     d.update(kw)
     return d
-def shape(nl, late):
-    d = drive('main', '%d coroutine listener(s)%s + 1 connected callback (stops after 1, 2 or never), 2 emissions with symbolic values (rvalue; then by value or by lvalue reference), destruction of every handle; single thread, no spurious CAS failure' % (nl, ' + 1 arriving between the signals' if late else ''))
-    d['name'] = 'drive_%dL%s' % (nl, '_late' if late else ''); d['defines'] = d['defines'] + ['DRIVE_NLIST %d' % nl, 'DRIVE_LATE %d' % late]
+def shape(nl, late, lim):
+    d = drive('main', '%d coroutine listener(s)%s + 1 connected callback that %s, 2 emissions with symbolic values (rvalue; then by value or by lvalue reference - symbolic choice), destruction of every handle; single thread, no spurious CAS failure'
+              % (nl, ' + 1 arriving between the signals' if late else '', {1: 'stops after the first value', 2: 'stops after the second value', 3: 'never stops (released on disconnect)'}[lim]))
+    d['name'] = 'drive_%dL%s_cb%d' % (nl, '_late' if late else '', lim); d['defines'] = d['defines'] + ['DRIVE_NLIST %d' % nl, 'DRIVE_LATE %d' % late, 'DRIVE_LIM %d' % lim]
     return d
-UNITS += [shape(1, 0), shape(2, 0), shape(3, 0), shape(2, 1),
+UNITS += [shape(1, 0, 1), shape(1, 0, 2), shape(1, 0, 3), shape(2, 0, 2), shape(2, 1, 1), shape(2, 1, 3), shape(3, 0, 1), shape(3, 0, 3),
     drive('disconnected', 'one listener on an emitter whose signal was destroyed, one on a default-constructed emitter'),
 ]
 META = {}
